@@ -554,6 +554,14 @@ func TestC09(t *testing.T) {
 		return
 	}
 	// (b) real timers, loop parked while timers fire and responses arrive
+	for _, c := range []RCase{
+		{RetransMs: 30, MaxRetrans: 3, Sess: []int{0, 2}, Answer: []bool{false, false}, BusyPct: 20, FailPct: 130},
+		{RetransMs: 60, MaxRetrans: 2, Sess: []int{1}, Answer: []bool{false}, BusyPct: 20, FailPct: 250},
+	} {
+		v, s := runReal(c)
+		accountReal(c, s)
+		vcore.Report(t, v, map[string]any{"real": c})
+	}
 	vcore.Check(t, vcore.N(25, 250), func(rt *rapid.T) {
 		c := genReal(rt)
 		v, s := runReal(c)
